@@ -8,7 +8,7 @@ use clvm_rs::allocator;
 use clvm_rs::allocator::{Allocator, NodePtr};
 
 use clvm_rs::error::EvalErr;
-use num_bigint::ToBigInt;
+use num_bigint::{Sign, ToBigInt};
 
 use sha2::Digest;
 use sha2::Sha256;
@@ -557,16 +557,24 @@ pub fn run_step(
                         Rc::new(step_.clone()),
                     ));
                 }
+                // An atom in evaluation position is a path: an unsigned bit
+                // string of the atom's full width (0xffff is not 0xff).
                 SExp::QuotedString(l, _, v) => {
                     step = RunStep::Step(
-                        Rc::new(SExp::Integer(l.clone(), number_from_u8(v))),
+                        Rc::new(SExp::Integer(
+                            l.clone(),
+                            Number::from_bytes_be(Sign::Plus, v),
+                        )),
                         context.clone(),
                         parent.clone(),
                     );
                 }
                 SExp::Atom(l, v) => {
                     step = RunStep::Step(
-                        Rc::new(SExp::Integer(l.clone(), number_from_u8(v))),
+                        Rc::new(SExp::Integer(
+                            l.clone(),
+                            Number::from_bytes_be(Sign::Plus, v),
+                        )),
                         context.clone(),
                         parent.clone(),
                     );
